@@ -312,6 +312,7 @@ func checkC06(c *Ctx) {
 	c.checkSignContext(regs)
 	c.checkInfixSignFusion("C06-INF")
 	c.checkTrailingColonKept("C06-COLON")
+	c.checkExponentSign("C06-EXP")
 	c.checkOperandStackEnds()
 	c.checkSelectorReparse()
 	// whether a - or + is a sign or an operator is decided by looking back through the lexer's ring of recent runes
@@ -1012,4 +1013,120 @@ func (c *Ctx) checkTrailingColonKept(rule string) {
 	if n == 0 {
 		c.undecided(rule, "Lexer.DecodeAtom", "callers", dec.Pos(), "no caller of DecodeAtom found")
 	}
+}
+
+// checkExponentSign: a + or - is glued into the pending atom (instead of ending it and becoming an
+// operator) when the rune before it is e or E: the sign of an exponent, 1e-5. That is right only if
+// the pending text without its last rune is a number; x.rate-1, 0x1e-1 or q[3].e-1 end in e too. The
+// rule: in the lexer's rune dispatcher, every path from the e/E test to the block that writes the
+// sign into the buffer passes the true side of a match of the pending text against the decimal or
+// float pattern.
+func (c *Ctx) checkExponentSign(rule string) {
+	lx := c.mustFn(rule, "Lexer.LexNextRune")
+	two := c.mustFn(rule, "Lexer.twoback")
+	if lx == nil || two == nil {
+		return
+	}
+	dec, flt := c.SZygo.Var("DecimalRegex"), c.SZygo.Var("FloatRegex")
+	isNumberMatch := func(cond ssa.Value) bool {
+		call, ok := cond.(*ssa.Call)
+		if !ok {
+			return false
+		}
+		g := call.Call.StaticCallee()
+		if g == nil || g.Name() != "MatchString" || fnPkgPath(g) != "regexp" || len(call.Call.Args) < 1 {
+			return false
+		}
+		ld, ok := call.Call.Args[0].(*ssa.UnOp)
+		if !ok {
+			return false
+		}
+		gl, ok := ld.X.(*ssa.Global)
+		return ok && (gl == dec || gl == flt)
+	}
+	// blocks entered when the rune two back is e / E
+	var eBlocks []*ssa.BasicBlock
+	for _, site := range callsOf(lx, two) {
+		v, ok := site.(ssa.Value)
+		if !ok || v.Referrers() == nil {
+			continue
+		}
+		for _, r := range *v.Referrers() {
+			bo, ok := r.(*ssa.BinOp)
+			if !ok || bo.Op != token.EQL {
+				continue
+			}
+			k, ok := constIntOf(bo.Y)
+			if !ok || (k != 'e' && k != 'E') || bo.Referrers() == nil {
+				continue
+			}
+			for _, r2 := range *bo.Referrers() {
+				if iff, ok := r2.(*ssa.If); ok {
+					eBlocks = append(eBlocks, iff.Block().Succs[0])
+				}
+			}
+		}
+	}
+	if len(eBlocks) == 0 {
+		c.undecided(rule, "Lexer.LexNextRune", "exponent test", lx.Pos(), "no comparison of the look-back rune with e / E found")
+		return
+	}
+	// the block(s) that write the current rune into the atom buffer
+	rParam := lx.Params[len(lx.Params)-1]
+	glue := map[*ssa.BasicBlock]bool{}
+	eachInstr(lx, func(b *ssa.BasicBlock, i int, in ssa.Instruction) {
+		call, ok := in.(*ssa.Call)
+		if !ok {
+			return
+		}
+		g := call.Call.StaticCallee()
+		if g == nil || g.Name() != "WriteRune" || len(call.Call.Args) < 2 || call.Call.Args[1] != ssa.Value(rParam) {
+			return
+		}
+		glue[b] = true
+	})
+	if len(glue) == 0 {
+		c.undecided(rule, "Lexer.LexNextRune", "write of the rune into the atom", lx.Pos(), "no WriteRune of the current rune found")
+		return
+	}
+	// reachability from the e-blocks, not taking the true side of a number match and not re-entering the dispatcher's loop head
+	seen := map[*ssa.BasicBlock]bool{}
+	stack := append([]*ssa.BasicBlock{}, eBlocks...)
+	var hit *ssa.BasicBlock
+	for len(stack) > 0 && hit == nil {
+		b := stack[len(stack)-1]
+		stack = stack[:len(stack)-1]
+		if seen[b] {
+			continue
+		}
+		seen[b] = true
+		if glue[b] {
+			hit = b
+			break
+		}
+		cond, t, e := condBranch(b)
+		if cond != nil && isNumberMatch(cond) {
+			_ = t
+			stack = append(stack, e)
+			continue
+		}
+		// leaving the case for the operator path (the pending atom is dumped) is not a way to glue the sign
+		dumps := false
+		for _, in := range b.Instrs {
+			if ci, ok := in.(ssa.CallInstruction); ok && ci.Common().StaticCallee() != nil && ci.Common().StaticCallee().Name() == "dumpBuffer" {
+				dumps = true
+			}
+		}
+		if dumps {
+			continue
+		}
+		stack = append(stack, b.Succs...)
+	}
+	pos := lx.Pos()
+	if hit != nil && len(hit.Instrs) > 0 {
+		pos = hit.Instrs[0].Pos()
+	}
+	c.check(hit == nil, rule, "Lexer.LexNextRune", "exponent sign only after a number", pos,
+		"after e / E the sign is written into the pending atom only on the true side of a match of that atom against the decimal or float pattern",
+		"the sign after an e / E can be glued into the pending atom on a path that never matched the atom against the number patterns: an operand that merely ends in e (a hex literal 0x1e, a field selector .e, a dotted name) swallows a following + or -, so {0x1e-1} or {q[3].e-1} is an unrecognized atom instead of a subtraction")
 }
